@@ -14,6 +14,9 @@ open Gold Gold.Peg
 def mk (kind ident : String) (rng : Range) (kids : List Tree) (attrs : List String := []) (sel : Option Range := none) : Tree :=
   .node kind ident rng (sel.getD rng) attrs kids
 
+/-- a range as an attr payload `l:c-l:c` (attrs are not part of the parse dump; the scope model reads them) -/
+def encRng (r : Range) : String := s!"{r.s.line}:{r.s.col}-{r.e.line}:{r.e.col}"
+
 /-- `AstTerminal::new(token)` -/
 def terminal (t : Tree) : Tree := mk "terminal" t.ident t.rng []
 
@@ -134,7 +137,8 @@ def untilStop (ks : List Kind) (self : Nat) : G :=
         (.map loopCons (.seq (.recover .skipTok (.ref nStatement)) (.ref self)))))
 
 /-- `AstBinaryOp` -/
-def binNode (l op r : Tree) : Tree := mk "bin_op" op.ident (Range.span l.rng r.rng) [l, r]
+def binNode (l op r : Tree) : Tree :=
+  mk "bin_op" op.ident (Range.span l.rng r.rng) [l, r] ["op=" ++ encRng op.rng, "opkind=" ++ op.kind]
 
 /-- right operand of a dangling `.`: `AstEmpty` -/
 def danglingRight (op c : Tree) : Tree :=
@@ -196,7 +200,7 @@ def gClass : G :=
       let c := v.nth 1; let n := v.nth 2; let p := v.nth 3
       let e := if p.isNone then n.rng else (p.nth 2).rng
       mk "class" n.ident (Range.span c.rng e) []
-        (if p.isNone then [] else ["parent=" ++ (p.nth 1).ident]) (some n.rng))
+        (if p.isNone then [] else ["parent=" ++ (p.nth 1).ident, "prng=" ++ encRng (p.nth 1).rng]) (some n.rng))
     (seqL [optAnn, .tok Kind.Class, .tok Kind.Identifier, .opt gParentClass])
 
 def gModule : G :=
@@ -253,7 +257,7 @@ def gRefOptions : G := seqL [.tok Kind.OSqrBracket, .ref nIdentList, .tok Kind.C
 def gTypeReference : G :=
   .map (fun v =>
       let r := v.nth 0; let id := v.nth 2; let inv := (v.nth 3).nth 1
-      mk "type_ref" id.ident (Range.span r.rng (if inv.isNone then id.rng else inv.rng)) [])
+      mk "type_ref" id.ident (Range.span r.rng (if inv.isNone then id.rng else inv.rng)) [] ["ref=" ++ r.kind, "idrng=" ++ encRng id.rng])
     (seqL [toks [Kind.RefTo, Kind.ListOf], .recover .silentAt gRefOptions, .tok Kind.Identifier,
            .dep (.opt (.tok Kind.Inverse)) Tree.isSome (.tok Kind.Identifier)])
 
